@@ -159,12 +159,40 @@ PROPERTIES["C04"] = {
         H("c04_index_entry", sub="codec", inputs="16 bytes, slice length 0..16 symbolic", bounds="none", timeout=300),
     ] + [H("c04_echo_%d" % i, sub="codec", inputs="%d signature bytes" % i, bounds="signature blob of %d bytes" % i, timeout=120) for i in (0, 1, 4, 5, 6)]
     + [H("c04_accessors_%d" % i, sub="codec", inputs="variant 0..9 symbolic, %d items" % i, bounds="%d items" % i, timeout=300) for i in (0, 1, 2)]
+    + [H("c04_payload_digest_%d" % i, sub="digest", inputs="payload digest algorithm id: any u32; %d digest items" % i, bounds="payload digest tag with %d items" % i, timeout=900) for i in (0, 1)]
     + [H("c04_twin", sub="codec", role="twin", timeout=120)],
     "bounds": "Level U: every byte of lead / intro / index entry symbolic incl. truncated slices; accessors on every variant with 0..2 items; echo helper on blobs of 0..6 bytes",
     "outside": "see DESIGN.md C04: compressed payload decoders (C libraries), OpenPGP packet parsing, headers beyond the listed Level-H shapes",
     "assumptions": A_COMMON + [A_S1, A_FORGET, A_SHAPES],
 }
 
+
+# ------------------------------------------------------------------------------------------ C03
+A_S5 = "S5: block compression functions of sha2/sha1/md-5 replaced by a cheap word-mixing stub that keeps the digest a function of every byte of every block in order (injective on short single-block messages); padding, buffering, hex encoding and all comparisons are the real code. The thorough tier repeats single-tag shapes with the real SHA-256/SHA-1/MD5 compression"
+A_S4 = "S4: portable (force-soft) hash back ends instead of SHA-NI/asm"
+_C03_QUICK = {0, 1, 2, 4, 8, 15}
+PROPERTIES["C03"] = {
+    "harnesses": [H("c03_digests_m%02d" % m, sub="digest", timeout=2400, mem_gb=16, tier=("quick" if m in _C03_QUICK else "thorough"),
+                    inputs="recorded MD5 (16 bytes), SHA1 (40 chars), SHA256 (64 chars), payload digest (64 chars), algorithm id (u32): all symbolic",
+                    bounds="tag subset mask %d (1=MD5 2=SHA1 4=SHA256 8=payload digest); main header 120/50 bytes, payload 3 concrete bytes" % m)
+                  for m in range(16)]
+    + [H("c03_twin", sub="digest", role="twin", timeout=900)],
+    "bounds": "every subset of the four digest tags; the recorded side fully symbolic; one fixed small package shape per subset (header contents symbolic where they contain the payload digest)",
+    "outside": "other package contents and sizes (the hashed side is the write() output of a fixed-shape package); collision resistance is not a claim",
+    "assumptions": A_COMMON + [A_S1, A_S4, A_S5, A_FORGET, A_SHAPES],
+}
+
+# ------------------------------------------------------------------------------------------ C08
+PROPERTIES["C08"] = {
+    "harnesses": [H(n, sub="digest", timeout=1800, tier=t, inputs="%s data bytes symbolic; inner sink accepts K bytes per call" % n.split("_")[2][1:],
+                    bounds="Sha256Writer over a short-writing sink, data length and chunk size as in the name (l=length, k=chunk, 0=whole)")
+                  for n, t in [("c08_writer_l1_k1", "thorough"), ("c08_writer_l2_k1", "quick"), ("c08_writer_l3_k1", "quick"), ("c08_writer_l3_k2", "quick"),
+                               ("c08_writer_l4_k3", "thorough"), ("c08_writer_l4_k0", "quick")]]
+    + [H("c08_twin", sub="digest", role="twin", timeout=900)],
+    "bounds": "the hashing writer (Sha256Writer) with data of 1..4 symbolic bytes through inner sinks accepting 1, 2, 3 or all bytes per call",
+    "outside": "digests computed inside PackageBuilder::prepare_data (payload, per-file) and header digests on build/sign/clear: the builder and the signature-header builder are outside reach (DESIGN.md C08); longer data",
+    "assumptions": A_COMMON + [A_S4, A_S5, A_SHAPES, "inner sink: KSink short writes only (no failure/Interrupted); std's write_all drives Sha256Writer::write"],
+}
 
 # ------------------------------------------------------------------------------------------ C13 (MIR -> SMT engine)
 A_MIR = [
@@ -198,6 +226,42 @@ PROPERTIES["C13"] = {
     "technique": None,
 }
 
+# ------------------------------------------------------------------------------------------ C19 (MIR engine)
+_C19 = ["sym0", "sym1", "sym2", "sym3", "sym4", "eq_sym3", "chown_sym1", "chown_sym2", "chown_sym3", "SYSLOG_sym2", "all_sym2", "nope_sym2", "list_sym2",
+        "list_trailing_comma_sym2", "sym1_chown_sym2", "two_eq", "two_eq_name", "two_name_eq", "two_name_sym", "two_sym_sym", "three", "ws_around"]
+_C19_QUICK = {"sym0", "sym1", "sym2", "sym3", "chown_sym1", "chown_sym2", "all_sym2", "nope_sym2", "list_sym2", "two_eq", "two_name_eq", "two_sym_sym",
+              "ws_around", "list_trailing_comma_sym2"}
+PROPERTIES["C19"] = {
+    "harnesses": [MH("c19_" + n, tier=("quick" if n in _C19_QUICK else "thorough"), timeout=(900 if n in _C19_QUICK else 7200),
+                     inputs="capability text of shape " + n, bounds="shape " + n + ": literal capability names plus the stated number of symbolic ASCII bytes (all 127 values each)",
+                     covers_unsat_ok=["accepted", "rejected"]) for n in _C19],
+    "bounds": "texts built from up to two literal name lists and up to 4 symbolic ASCII bytes (every byte value 0x01..0x7f, so all operators, flags, commas, whitespace kinds and junk), 1..3 clauses",
+    "outside": "longer free-form text, non-ASCII whitespace, capability names other than the literals of the shapes (the 41-name table itself is compared by the real code on every path)",
+    "assumptions": A_MIR + ["oracle: the grammar of the property statement written as an independent recogniser (engines/harnesses_text.py caps_spec); release semantics (debug_assert! compiled out)"],
+    "technique": None,
+}
+
+# ------------------------------------------------------------------------------------------ C15 (MIR engine)
+_C15_EVR = [(0, 1, 0), (0, 1, 1), (1, 1, 1), (0, 2, 1), (1, 2, 1), (0, 1, 2), (1, 1, 2), (2, 1, 1), (0, 2, 2), (1, 2, 2), (0, 3, 2), (2, 2, 2)]
+_C15_NEVRA = [(1, 0, 1, 1, 1), (2, 0, 1, 1, 1), (1, 1, 1, 1, 1), (2, 1, 2, 1, 1), (1, 0, 2, 2, 1), (3, 0, 1, 1, 2), (2, 0, 1, 2, 2)]
+_C15_DASH = [(2, 0, 1, 1, 1), (3, 0, 1, 1, 1), (3, 1, 1, 1, 1)]
+PROPERTIES["C15"] = {
+    "harnesses": [MH("c15_evr_%d_%d_%d" % s, tier=("quick" if sum(s) <= 4 else "thorough"), inputs="epoch/version/release of %d/%d/%d symbolic bytes" % s,
+                     bounds="EVR component lengths %d/%d/%d; epoch digits, version/release from [A-Za-z0-9._+~^]" % s, covers_unsat_ok=["round trip with an epoch"]) for s in _C15_EVR]
+    + [MH("c15_nevra_%d_%d_%d_%d_%d" % s, tier=("quick" if sum(s) <= 6 else "thorough"), inputs="name/epoch/version/release/arch of %d/%d/%d/%d/%d symbolic bytes" % s,
+          bounds="NEVRA component lengths as named; name from [A-Za-z0-9._+] (no '-')") for s in _C15_NEVRA]
+    + [MH("c15_nevra_dash_%d_%d_%d_%d_%d" % s, role="nevra_dash", tier=("quick" if sum(s) <= 5 else "thorough"), inputs="name containing at least one '-'",
+          bounds="NEVRA component lengths as named; name from [A-Za-z0-9._+-] with at least one '-'") for s in _C15_DASH]
+    + [MH("c15_comp_%d" % n, inputs=("each of the 5 variants" if n == 0 else "text of %d symbolic ASCII bytes" % n),
+          bounds=("variant names" if n == 0 else "text length %d" % n), covers_unsat_ok=["rejected"]) for n in range(0, 6)]
+    + [MH("c15_nopanic_%s_%d" % (w, n), inputs="text of %d symbolic ASCII bytes" % n, bounds="text length %d" % n, tier=("quick" if n <= 3 else "thorough"))
+       for w in ("evr", "nevra") for n in range(0, 5)],
+    "bounds": "EVR/NEVRA components of up to 3 bytes each over the character sets rpm allows in those fields; compression type names: all 5 variants and all texts up to 5 bytes; parse no-panic on all texts up to 4 bytes",
+    "outside": "longer components; non-ASCII; characters rpm itself rejects in version/release (':' '-' ...); Nevra normalised/nvra forms",
+    "assumptions": A_MIR + ["fmt: `write!`/`format!` are modelled by decoding this toolchain's compact format template (literal pieces and plain `{}` arguments only); Display of &str/String/Cow/char is the identity"],
+    "technique": None,
+}
+
 # ------------------------------------------------------------------------------------------ texts for MANIFEST.json
 _NOTE = ("Holds for all inputs within the stated bounds only (see evidence.coverage.bounds / outside_bounds). Trusted base: Kani's MIR->GOTO "
          "translation, CBMC, CaDiCaL, the stubs and assumptions listed in evidence.assumptions (DESIGN.md §4), and the harness oracles. "
@@ -222,16 +286,29 @@ NOT_APPLICABLE = {
     "C10": "every step goes through real OpenPGP packet parsing and public-key cryptography (RSA/EdDSA/ECDSA big-number arithmetic), outside SAT reach; an abstract signer cannot produce packets the real parser accepts",
     "C11": "nondeterminism comes from RandomState (OS randomness behind FFI); SipHash+hashbrown with a symbolic seed did not finish for a 2-element set; the clamp logic lives inside the unreachable prepare_data; cross-process runs are not expressible",
     "C12": "effects are file-system system calls (no model; symlink resolution is kernel semantics) and Path::join/strip_prefix/components exhausted 20 GB at four symbolic characters",
-    "C15": "EVR/NEVRA round trips go through fmt::Display and split_once/rsplit_once (memchr + str searchers), same blow-up as C13; the CompressionType fragment has no symbolic input",
     "C17": "destination handling is PathBuf::parent/strip_prefix/file_name (same blow-up as C12); compression levels are consumed by C libraries behind FFI; capability text is C19",
-    "C19": "three symbolic characters through validate_caps_text (split_whitespace, find, slicing, to_uppercase, 41-way contains) reached no verdict in 15 min under Kani",
     "C02": "not yet built",
-    "C03": "not yet built",
     "C05": "not yet built",
-    "C08": "not yet built",
     "C09": "not yet built",
 }
 
 PROPERTIES["C13"].update(claim="compare_version_string is symbolically executed from its MIR for every pair of ASCII strings up to the stated lengths (all 127 values per byte): "
                          "result equals an independent transliteration of rpm's rpmvercmp, is antisymmetric and reflexive; transitivity on triples up to 2 bytes each.",
                          note="Bounded by string length and to ASCII. Trusted base: the MIR interpreter and its std models (validated against the real crate on concrete inputs every run), z3, the rpmvercmp transliteration.")
+
+PROPERTIES["C03"].update(claim="verify_digests is model-checked on a package of fixed small shape for each of the 16 subsets of digest tags with every recorded digest value and "
+                         "algorithm id symbolic: Ok exactly when all recorded values equal the recomputed ones, DigestMismatchError on a mismatch, error for other algorithm ids.",
+                         note=_NOTE)
+
+PROPERTIES["C08"].update(claim="The hashing writer used for the alternate payload digest is model-checked: for data of 1..4 symbolic bytes pushed with write_all through an inner sink "
+                         "that accepts 1/2/3/all bytes per call, the recorded digest equals SHA-256 (portable back end, compression stubbed in the quick tier) of the bytes the sink received. "
+                         "Builder-computed digests are outside the claim.", note=_NOTE)
+
+_NOTE_MIR = ("Bounded by the listed shapes (component lengths) and to ASCII. Trusted base: the MIR interpreter and its models of std functions (validated on every run against the "
+             "real compiled crate on concrete inputs), z3, the oracle written from the property statement. Release semantics (debug assertions off, overflow checks on).")
+PROPERTIES["C19"].update(claim="validate_caps_text / FileCaps::from_str are symbolically executed from their MIR on texts made of literal capability-name lists plus up to 4 fully symbolic "
+                         "ASCII bytes in 1..3 clauses; acceptance is compared on every path with an independent recogniser of the grammar in the property statement; accepted text kept verbatim; no panic.",
+                         note=_NOTE_MIR)
+PROPERTIES["C15"].update(claim="EVR and NEVRA Display + parse are symbolically executed from MIR for all component values up to 3 bytes over rpm's legal character sets: components come back identical, "
+                         "normalised EVR carries an epoch; every CompressionType variant parses from its own name and every accepted name is a variant's own name; parse never panics on texts up to 4 bytes.",
+                         note=_NOTE_MIR)
